@@ -21,8 +21,12 @@ Oracles for the property itself
  (i') the specification Spec.ExpandSpec.expand_spec (extracted) equals the
       implementation's output whenever the implementation accepts a template;
  (ii) end to end: a hand-written expansion of the sugared statement, as Circom
-      source, gives the same findings from the CLI binary as the sugared program,
-      modulo positions and generated names.
+      source, gives the same findings from the CLI binary as the sugared program
+      (severity, code, message, line of the primary location), modulo columns and
+      generated names.
+
+A failing input is attributed to a known finding only by the SIGNATURE of the
+failure (known_signature), never by its text alone.
 """
 import hashlib
 import json
@@ -263,8 +267,7 @@ E2E_HOST = """template T(n) {{
   signal arr2[2][2];
   var v = 0;
   var w = 0;
-  {DECL}
-  {BODY}
+  {DECL} {BODY}
 }}
 component main = T(1);
 """
@@ -303,18 +306,75 @@ def e2e_pairs():
 GEN_NAME = re.compile(r"\b(?:[A-Za-z0-9]+_\d+_\d+|cx|anon_var_\d+_\d+)\b")
 
 
+LOC_LINE = re.compile(r"^\s*┌─ .*:(\d+):\d+\s*$")
+
+
 def findings(cli, path):
-    """Multiset of findings of a CLI run, positions and generated names removed."""
+    """Multiset of findings of a CLI run: severity, code, message (generated names removed) and the LINE of the
+    primary location, where the report has one.  Both programs of a pair are rendered from the same host text with
+    the sugared statement / its expansion (with the component declaration it needs) on the same line (E2E_HOST: DECL
+    and BODY share one line), so lines are comparable; columns are not compared because the two statements are different texts (the anonymous component
+    `A1()(a)` and the hand-written `cx = A1(); cx.x1 <== a;` start at different offsets of that line), and labels
+    beyond the primary one are not compared (codespan prints them as excerpts of the differing source line)."""
     rc, out, err = common.sh([cli, path, "--verbose"], timeout=120)
     text = out + err
     if rc not in (0, 1) or "panicked at" in text:
         return None, text[-1500:]
     res = []
-    for m in re.finditer(r"^(warning|error|note)(?:\[(\w+)\])?: (.*)$", text, re.M):
+    lines = text.split("\n")
+    for i, ln in enumerate(lines):
+        m = re.match(r"^(warning|error|note)(?:\[(\w+)\])?: (.*)$", ln)
+        if not m:
+            continue
         msg = GEN_NAME.sub("<c>", m.group(3))
-        msg = re.sub(r"\[<c>\]|\[i\]", "", msg)
-        res.append("%s[%s]: %s" % (m.group(1), m.group(2), msg))
+        # the index of the generated component array: the generated counter in the sugared program, the loop's own variable
+        # (`i` of the for positions, `v` of the while position) in the hand expansion
+        msg = re.sub(r"<c>\[(?:<c>|i|v)\]", "<c>", msg)
+        loc = LOC_LINE.match(lines[i + 1]) if i + 1 < len(lines) else None
+        res.append("%s[%s]: %s @line %s" % (m.group(1), m.group(2), msg, loc.group(1) if loc else "-"))
     return sorted(res), text[-1500:]
+
+
+def multiset_diff(a, b):
+    """elements of a not matched by an equal element of b (as multisets)"""
+    rest = list(b)
+    out = []
+    for x in a:
+        if x in rest:
+            rest.remove(x)
+        else:
+            out.append(x)
+    return out
+
+
+# The SIGNATURE of each known finding: what exactly a failing end-to-end pair shows.  A failure is covered by a known
+# finding only if (a) it is an end-to-end pair record whose two runs completed, (b) the sugared source is in the
+# finding's input class (class_regex of known_findings.jsonl), (c) the expansion has no finding the sugared program
+# lacks, and (d) every finding the sugared program has in excess matches the pattern below.  Anything else on such an
+# input - a panic, a rejected definition, a model disagreement, another extra or missing finding - is a violation.
+KNOWN_SIGNATURES = {
+    "C18-loop-counter-finding":
+        r"^warning\[CS0008\]: The value assigned to `<c>` is not used in witness or constraint generation\. @line \d+$",
+    "C18-generated-name-capture":
+        r"^warning\[CS0001\]: Declaration of variable `<c>` shadows previous declaration\. @line \d+$",
+}
+
+
+def known_signature(known, f):
+    """-> the known finding whose class AND signature the failure record f has, or None."""
+    if not f.get("e2e_pair"):
+        return None
+    fs, fe = f.get("impl"), f.get("spec")
+    if not isinstance(fs, list) or not isinstance(fe, list):
+        return None
+    extra, missing = multiset_diff(fs, fe), multiset_diff(fe, fs)
+    if missing or not extra:
+        return None
+    for k in known:
+        pat, sig = k.get("class_regex"), KNOWN_SIGNATURES.get(k["id"])
+        if pat and sig and re.search(pat, f.get("input", "")) and all(re.match(sig, x) for x in extra):
+            return k
+    return None
 
 
 def run_e2e(ctx, cli, pairs):
@@ -523,42 +583,57 @@ def run(ctx, proofs):
         pass
     e2e = run_e2e(ctx, CLI, pairs)
     e2e_fail = []
-    known_e2e = []
+    e2e_located = 0
+    fresh_fail = []
     for lab, s, e, fs, fe, ts, te in e2e:
+        # the renaming behind a pair sends the generated component name to `cx`: it must be a name the sugared program
+        # does not use (hypothesis fixes_names / inj_on of the renaming theorems, for this f)
+        if re.search(r"\bcx\b", s):
+            fresh_fail.append({"label": lab, "input": s, "what": "the hand expansion's component name `cx` occurs in the sugared program"})
         if fs is None or fe is None:
             failing.append({"label": lab, "input": s if fs is None else e, "impl": "the CLI panics or crashes: " + (ts if fs is None else te)[-400:],
                             "spec": "no panic"})
-        elif fs != fe:
-            e2e_fail.append({"label": lab, "input": s, "expansion": e, "impl": fs, "spec": fe})
+        else:
+            e2e_located += sum(1 for x in fs if not x.endswith("@line -"))
+            if fs != fe:
+                e2e_fail.append({"label": lab, "input": s, "expansion": e, "impl": fs, "spec": fe, "e2e_pair": True})
     for f in e2e_fail:
         failing.append(f)
 
-    # known findings: replay witnesses
+    # known findings: replay witnesses (the witness must still show exactly the recorded signature)
     for k in ctx.known:
         w = k.get("witness", {})
         if "sugared" in w:
             r = run_e2e(ctx, CLI, [(k["id"], w["sugared"], w["expanded"])])[0]
             if r[3] != r[4]:
-                ctx.known_finding(k["id"], k["what"])
+                wrec = {"label": "known/" + k["id"], "input": w["sugared"], "expansion": w["expanded"], "impl": r[3], "spec": r[4],
+                        "e2e_pair": True}
+                if r[3] is None or r[4] is None:
+                    wrec["impl"] = "the CLI panics or crashes: " + (r[5] if r[3] is None else r[6])[-400:]
+                hit = known_signature([k], wrec)
+                if hit:
+                    ctx.known_finding(k["id"], k["what"])
+                else:
+                    failing.append(wrec)
 
-    def is_known(f):
-        for k in ctx.known:
-            pat = k.get("class_regex")
-            if pat and re.search(pat, f.get("input", "")):
-                return k
-        return None
-
-    shown = 0
+    # a failure is a known finding only by its SIGNATURE (known_signature), never by the input text alone
+    known_by_id = {}
+    real_fail = []
     for f in failing:
-        k = is_known(f)
+        k = known_signature(ctx.known, f)
         if k:
+            known_by_id[k["id"]] = known_by_id.get(k["id"], 0) + 1
             ctx.known_finding(k["id"], k["what"])
-            continue
-        if shown < 5:
-            ctx.violation("desugaring: %s: %s" % (f["label"], "; ".join(f["impl"]) if isinstance(f["impl"], list) else str(f["impl"])[:300]),
-                          {"input": f["input"], "impl": f["impl"], "spec": f.get("spec"), "expansion": f.get("expansion")})
-            shown += 1
-    real_fail = [f for f in failing if not is_known(f)]
+        else:
+            real_fail.append(f)
+    class_only = {}      # failures on inputs of a known finding's input class that are NOT that finding: violations (counted)
+    for f in real_fail:
+        for k in ctx.known:
+            if k.get("class_regex") and re.search(k["class_regex"], f.get("input", "")):
+                class_only[k["id"]] = class_only.get(k["id"], 0) + 1
+    for f in real_fail[:5]:
+        ctx.violation("desugaring: %s: %s" % (f["label"], "; ".join(f["impl"]) if isinstance(f["impl"], list) else str(f["impl"])[:300]),
+                      {"input": f["input"], "impl": f["impl"], "spec": f.get("spec"), "expansion": f.get("expansion")})
     if not real_fail:
         if disagreements:
             d0 = disagreements[0]
@@ -572,9 +647,17 @@ def run(ctx, proofs):
             d0 = spec_diff[0]
             ctx.violation("Spec.ExpandSpec.expand_spec differs from the desugarer's output (%d programs, first: %s)" % (len(spec_diff), d0["label"]),
                           {"broken": "expand_spec vs implementation", "first": d0, "count": len(spec_diff)}, no_input=True)
+        elif fresh_fail:
+            d0 = fresh_fail[0]
+            ctx.violation("end-to-end pairs: %s (%d pairs, first: %s)" % (d0["what"], len(fresh_fail), d0["label"]),
+                          {"broken": "hypothesis of C18_desugar_is_expand_up_to_alpha for the renaming of the end-to-end pairs "
+                                     "(generated component name -> cx): cx must be fresh", "first": d0}, no_input=True)
         elif proofs["failures"]:
             ctx.violation("proof obligations of C18 no longer check: " + "; ".join(proofs["failures"])[:500],
                           {"broken": "props/C18.v", "failures": proofs["failures"]}, no_input=True)
+        elif e2e_located < len(e2e):
+            ctx.violation("end-to-end pairs: only %d findings with a location were compared on %d pairs: the line comparison is vacuous"
+                          % (e2e_located, len(e2e)), {"broken": "location parsing of lib/props/C18.py findings()"}, no_input=True)
     ctx.coverage.update({
         "evaluations": len(programs) + 2 * len(e2e),
         "distinct_nontrivial": len(nontrivial),
@@ -600,6 +683,10 @@ def run(ctx, proofs):
         "report_messages_seen": len(kinds),
         "report_message_histogram": dict(sorted(kinds.items(), key=lambda x: -x[1])[:45]),
         "e2e_pairs": len(e2e), "e2e_differences": len(e2e_fail),
+        "e2e_findings_compared_with_their_line": e2e_located,
+        "e2e_pairs_whose_expansion_name_is_fresh": len(e2e) - len(fresh_fail),
+        "known_findings_matched_by_signature": known_by_id,
+        "failures_in_a_known_input_class_without_its_signature": class_only,
         "disagreements_model_vs_impl": len(disagreements),
         "spec_vs_impl_differences": len(spec_diff),
         "wf_hypothesis_failures": len(wf_fail),
@@ -612,7 +699,16 @@ def run(ctx, proofs):
         "name-sorted definitions and sorted report lists (each definition is desugared independently of the others)",
         "the parser is outside the mirror: the model is fed the AST the real parser produced (printed by the harness before desugaring)",
         "codespan's line index is modelled as 'number of line starts <= offset'; line starts are computed from the source text by the driver",
-        "end-to-end equality of findings (oracle ii) is observed on %d sugared/expanded pairs, not proved" % len(e2e),
+        "end-to-end equality of findings (oracle ii) is observed on %d sugared/expanded pairs, not proved; compared per finding: severity, "
+        "code, message with generated names erased, LINE of the primary location (columns and further labels are not compared: the two "
+        "statements are different texts on that line)" % len(e2e),
+        "a failure counts as a known finding only if it is an end-to-end pair whose sugared source is in the finding's input class AND whose "
+        "only difference is the recorded extra finding (KNOWN_SIGNATURES); every other failure on an input of that class is a violation",
+        "C18_expand_spec_alpha_renaming / C18_desugar_is_expand_up_to_alpha quantify over every renaming f; their hypotheses fixes_names / "
+        "inj_on are about f, not about the program, so there is nothing to evaluate per explored program except for the one f the end-to-end "
+        "pairs use (generated component name -> `cx`): `cx` is checked to be absent from every sugared program; the hand expansions in loops "
+        "index the component array with the loop's own variable instead of a generated counter and are therefore NOT instances of these "
+        "theorems (they are compared by findings only)",
         "the hypotheses of the panic-freedom and faithfulness theorems (wf_template: metas with a known file id, log strings <= 230 bytes, "
         "one name per named input, block bodies) are checked on the real parser's output of every explored program, not proved about the parser",
     ]
